@@ -811,7 +811,7 @@ def gen_far(rnd, full=False):
                     text = "%s far %s%s" % (mn, (kw + " ") if kw else "", M)
                     nasm = "%s far %s %s" % (mn, nkw, M)
                     c = mk("branch_far", mn, "far_m", text, [], 64, nasm=nasm, base=base, index=index, scale=scale, disp=disp, kw=kw)
-                    m = mem_exp(None, base, index, scale, disp)
+                    m = canon_expected("x", [mem_exp(None, base, index, scale, disp)])[1]  # (the linear form in canonical order)
                     c["exp"] = (mn + "f", m, ("i", {"word": 16, "dword": 32, "qword": 64}[nkw]))
                     c["far_size"] = nkw
                     out.append(c)
